@@ -51,10 +51,44 @@ def run_all(args):
     return 1 if bad else 0
 
 
+def run_hits(args):
+    """tools_seeded.py hits: for every stored change, how many runs of the quick batch violate (margin of
+    the detection; no shrinking)."""
+    import glob
+    import re
+    from importlib import import_module
+    for d in sorted(glob.glob(os.path.join(VERIF, "seeded", "*", "meta.json"))):
+        meta = json.load(open(d))
+        base = os.path.dirname(d)
+        prop = meta["breaks_property"]
+        tmp = tempfile.mkdtemp(prefix="yabgp-hits-")
+        dst = os.path.join(tmp, "repo")
+        try:
+            sh(["git", "-C", "/repo", "worktree", "add", "--detach", dst, "HEAD"])
+            rc, o = sh(["git", "-C", dst, "apply", os.path.join(base, "patch.diff")])
+            env = dict(os.environ)
+            env["VERIF_REPO"] = dst
+            sys.path.insert(0, VERIF)
+            n = args[0] if args else None
+            if n is None:
+                env2 = dict(env)
+                rc, o = sh([PY, "-c", "import sys; sys.path.insert(0, %r); from sim import profiles; print(profiles.get(%r).runs['quick'])" % (VERIF, prop)], env=env2)
+                n = o.strip().splitlines()[-1]
+            rc, o = sh([PY, os.path.join(VERIF, "tools_sigs.py"), prop, str(n)], env=env, timeout=3600)
+            m = re.search(r"violating_runs (\d+)", o)
+            print("%-8s %s  violating runs: %s of %s" % (meta["id"], prop, m.group(1) if m else "?", n), flush=True)
+        finally:
+            sh(["git", "-C", "/repo", "worktree", "remove", "--force", dst])
+            shutil.rmtree(tmp, ignore_errors=True)
+    return 0
+
+
 def main():
     args = sys.argv[1:]
     if args and args[0] == "all":
         return run_all(args[1:])
+    if args and args[0] == "hits":
+        return run_hits(args[1:])
     if len(args) < 4 or args[0] != "eval":
         print(__doc__)
         return 2
